@@ -6,6 +6,7 @@
 import Rtp.Proofs.VP9
 import Rtp.Proofs.VP9Pay
 import Rtp.Proofs.VP9Bits
+import Rtp.Proofs.VP9HeaderSafe
 namespace Rtp.Props.C12
 open Rtp Rtp.Model Rtp.Pred
 open Rtp.Spec.Vp9Rtp (Descriptor)
@@ -124,6 +125,12 @@ theorem c12_flag (buf : Bytes) (pos : Nat) (h : pos < 8 * buf.length) :
 
 /-- non-vacuity: 13 bits at offset 5 of `A5 3C F0`: 10100|101 00111100 11|110000 -/
 example : vp9ReadBitsUnsafe [0xA5, 0x3C, 0xF0] 5 13 = .ok (0b1010011110011, 18) := by decide +kernel
+
+/-- vp9.Header.Unmarshal never panics, whatever the input: every unchecked read is covered by the
+    `hasSpace` test before it (so VP9Payloader, which runs it on every non-flexible frame, cannot
+    panic there either) -/
+theorem c12_header_nopanic (buf : Bytes) : vp9HeaderUnmarshal buf ≠ .panic :=
+  Proofs.VP9Bits.header_nopanic buf
 
 /-- what is NOT proved: the full `c12_header` (parse (encode hd) = hd for every profile, colour
     configuration and size 1 … 65535); it is checked by correspondence kind `c12.hdr` against the
